@@ -720,6 +720,55 @@ func c11CLIInterrupted(e *Env, pool *hx.Pool) {
 	}
 }
 
+// c11CLIResumeCount: `migrate apply N` counts FILES, also when the first of them is a partially applied file that
+// is resumed: with 20 applied 1 of 3 and 30, 40 pending, `apply 1` finishes 20 and nothing else, the next
+// `apply 1` runs 30 only.
+func c11CLIResumeCount(e *Env, pool *hx.Pool) {
+	s := &c11CLIState{e: e, pool: pool, dir: filepath.Join(e.Work, "c11resume"), blocked: map[string]bool{}}
+	os.MkdirAll(s.dir, 0o755)
+	defer os.RemoveAll(s.dir)
+	fail := func(sig, what string) {
+		e.Res.Violate("failing-input", sig, what+"\ncommands:\n  "+strings.Join(s.ops, "\n  "), "Props.C11 status/apply agree with Pending (count)", c11Scn{Files: s.files, Ops: s.ops})
+	}
+	s.files = []c11File{{V: "10"}, {V: "20", N: 3}, {V: "30"}, {V: "40"}}
+	s.writeDir()
+	dbp := filepath.Join(s.dir, "db.sqlite")
+	e.Res.Count("c11cli-resume-count", true, "cli-op:apply-n-resuming-a-partial-file")
+	if o := s.atlas("migrate", "apply", "--tx-mode", "none", "1"); o.Code != 0 {
+		return
+	}
+	if execSQL(dbp, "CREATE TABLE t20_2 (y int)") != nil {
+		return
+	}
+	s.ops = append(s.ops, "break: CREATE TABLE t20_2")
+	s.atlas("migrate", "apply", "--tx-mode", "none") // fails at statement 2 of 20
+	if execSQL(dbp, "DROP TABLE t20_2") != nil {
+		return
+	}
+	s.ops = append(s.ops, "repair: DROP TABLE t20_2")
+	db := s.read()
+	if len(db.revs) != 2 || db.revs[1].Applied != 1 || db.revs[1].Total != 3 {
+		return
+	}
+	for step, want := range []struct {
+		revs    int
+		present string
+		absent  string
+	}{{2, "t20_3", "t30_1"}, {3, "t30_1", "t40_1"}} {
+		o := s.atlas("migrate", "apply", "--tx-mode", "none", "1")
+		after := s.read()
+		if o.Code != 0 {
+			fail("apply-n-fails", fmt.Sprintf("`migrate apply 1` (step %d) fails: %s", step, trunc(o.Stderr+o.Stdout, 300)))
+			return
+		}
+		if len(after.revs) != want.revs || !after.tables[want.present] || after.tables[want.absent] {
+			fail("apply-n-runs-other-files", fmt.Sprintf("`migrate apply 1` (step %d, starting with revisions %s) left revisions %s and tables %s; expected %d revisions, table %s present and %s absent", step, db.revsText(), after.revsText(), after.tablesText(), want.revs, want.present, want.absent))
+			return
+		}
+		db = after
+	}
+}
+
 func dedup(xs []string) []string {
 	seen := map[string]bool{}
 	var out []string
